@@ -61,11 +61,12 @@ namespace pure {
                                                              const char* what, uint64_t got, uint64_t exp, SeqAcc& A )
     {
         ++A.failed;
+        std::string key = split_key( pol, safe, pos, req, eff, what );
+        if ( !report_wanted( "C25", key )) return;
         std::string ws = "[";
         for ( unsigned i = 0; i < nw; ++i ) { if ( i ) ws += ","; ws += num( w[i] ); }
         ws += "]";
-        std::string key = split_key( pol, safe, pos, req, eff, what );
-        report( "C25", key,
+        violation( "C25", key,
                 pol.name + ": " + ( safe ? "safe_cut(" : "cut(" ) + num( req ) + ") at bit offset " + num( pos ) + " (call #" + num( idx ) + " of widths " + ws + ", source bytes " + bytes_hex( bytes, pol.nbits / 8 )
                 + "): " + what + " is " + hxs( got ) + ", the bit-string model gives " + hxs( exp ),
                 "{\"splitter\":" + jstr( pol.name ) + ",\"source_bytes_memory_order\":" + bytes_hex( bytes, pol.nbits / 8 ) + ",\"widths\":" + ws + ",\"mode\":" + ( safe ? "\"safe_cut\"" : "\"cut\"" )
@@ -376,10 +377,10 @@ namespace pure {
             prop( "C25" ).add_extra( "splitter_8bit_sources_x_all_compositions_exhaustive", 1 );
         }
         else if ( pol.nbits == 16 ) {
-            su.exhaustive( 64, Gen16Sample{ a.seed }, a.n( 6, 512 ));
+            su.exhaustive( 64, Gen16Sample{ a.seed }, budget( 6, 512 ));
             su.exhaustive( a.thorough ? 3 : 2, gen16_all, 65536 );
         }
-        su.random( pol.nbits <= 16 ? a.n( 20000, 400000 ) : a.n( 60000, 3000000 ), g );
+        su.random( pol.nbits <= 16 ? budget( 20000, 400000 ) : budget( 60000, 3000000 ), g );
         su.flush( vname.c_str());
     }
 
